@@ -60,9 +60,12 @@ def main():
     mc = tlc.run_tlc("MC_PdoCfg", "MC_PdoCfg.cfg", workers=args.jobs, timeout=1200)
     if not mc.ok:
         v.report({"clause": "model:" + str(mc.violated)}, f"MC_PdoCfg violates {mc.violated}", {"tlc_tail": mc.stdout[-3000:]})
+    replay_load = None
     if args.replay:
         import json
         cases = [json.load(open(args.replay))["case"]]
+        if cases[0].get("loadcfg"):
+            replay_load, cases = cases, []
     else:
         cases = gen_cases(args.tier, args.seed)
     results = run_cases("harness.drv_pdocfg:run_case", cases, jobs=args.jobs, timeout=120)
@@ -76,7 +79,22 @@ def main():
                "prior_valid": c["dev0"]["valid"], "prior_count0": c["dev0"]["count"] == 0}
         v.report(sig, f"{rej.why} [cfg={c['cfg']} prior={c['dev0']} present={c['present']}] event={str(ev)[:300]}",
                  {"case": c, "step": rej.step, "why": rej.why, "spec_state": rej.state[:1500], "event": ev})
-    cov = {"states": mc.distinct, "transitions": mc.generated, "traces_validated_against_impl": val.traces,
+    # the same configuration applied through RemoteNode.load_configuration(): PDO objects first (by
+    # read(from_od=True) + save()), never again after the application objects have been started
+    lrng = random.Random(args.seed * 7 + 99)
+    lcases = replay_load or []
+    if not args.replay:
+        for i in range(90 if args.tier == "quick" else 1200):
+            lcases.append({"seed": lrng.randrange(1 << 30), "with_pdo": i % 3 != 2,
+                           "reacts": [lrng.choice(["ok", "ok", "ok", "ro", "timeout", "abort"])
+                                      for _ in range(lrng.randrange(0, 8))]})
+    lres = run_cases("harness.drv_loadcfg:run_case", lcases, jobs=args.jobs, timeout=120)
+    lval = tlc.validate_traces("Trace_LoadCfg", lres, cfg="Trace.cfg", jobs=args.jobs) if lcases else None
+    for rej in (lval.rejects if lval else []):
+        v.report({"clause": "load_configuration: " + rej.why, "ev": (rej.event or {}).get("e")},
+                 f"load_configuration: {rej.why} event={str(rej.event)[:300]} spec={rej.state[:200]}",
+                 {"case": dict(lcases[rej.index], loadcfg=True), "step": rej.step, "why": rej.why, "event": rej.event})
+    cov = {"load_configuration_traces": lval.traces if lval else 0, "states": mc.distinct, "transitions": mc.generated, "traces_validated_against_impl": val.traces,
            "samples": [results[0]["ev"][:6]], "trace_events": val.events, "rejected": len(val.rejects),
            "transmission_types_covered": len({c["cfg"]["tt"] for c in cases})}
     return v.finish("model_checking", cov, [
